@@ -633,3 +633,115 @@ _add(
         tags=("kern", "multi-el"),
     )
 )
+
+
+# ---- additions in the third session ---------------------------------------------------------
+
+# numpy arrays inside the *form* signature: custom quadrature rules in the measure's metadata
+# and quadrature elements defined by points.  UFL / basix put str(array) / repr(array) of them
+# into the signature, which is neither injective (8 significant digits, '...' for > 1000
+# entries) nor independent of numpy's process-global print options.
+_CQ_PTS = "np.array([[0.2, 0.2], [0.6, 0.2], [0.2, 0.6 + {eps}]], dtype=np.float64)"
+
+
+def _custom_quad(name, eps, tags=("family", "cquad", "npstr")):
+    return _add(
+        Request(
+            name,
+            "forms",
+            [
+                _mesh("triangle"),
+                'el = basix.ufl.element("Lagrange", "triangle", 1)',
+                "V = ufl.FunctionSpace(mesh, el)",
+                "u = ufl.TrialFunction(V)",
+                "v = ufl.TestFunction(V)",
+                "qpts = " + _CQ_PTS.format(eps=eps),
+                "qwts = np.array([1.0, 1.0, 1.0], dtype=np.float64) / 6.0",
+                'a = ufl.inner(u, v) * ufl.dx(metadata={"quadrature_rule": "custom", '
+                '"quadrature_points": qpts, "quadrature_weights": qwts})',
+                "objs = [a]",
+            ],
+            tags=tags,
+        )
+    )
+
+
+_custom_quad("cquad_base", "0.0", tags=("family", "cquad", "npstr", "kern"))
+_custom_quad("cquad_eps10", "1e-10")
+_custom_quad("cquad_eps3", "1e-3")
+
+
+def _custom_quad_big(name, row, tags=("family", "cquad", "npstr")):
+    # 600 points: numpy elides the middle of arrays with more than 1000 entries
+    return _add(
+        Request(
+            name,
+            "forms",
+            [
+                _mesh("triangle"),
+                'el = basix.ufl.element("Lagrange", "triangle", 1)',
+                "V = ufl.FunctionSpace(mesh, el)",
+                "v = ufl.TestFunction(V)",
+                "qpts = ((np.arange(1200, dtype=np.float64).reshape(600, 2) % 7) + 1) / 20.0"
+                + (f"; qpts[{row}, 1] = 0.123" if row is not None else ""),
+                "qwts = np.full(600, 0.5 / 600)",
+                'L = v * ufl.dx(metadata={"quadrature_rule": "custom", '
+                '"quadrature_points": qpts, "quadrature_weights": qwts})',
+                "objs = [L]",
+            ],
+            tags=tags,
+        )
+    )
+
+
+_custom_quad_big("cquad_big_a", None)
+_custom_quad_big("cquad_big_b", 300)
+
+
+def _quad_element(name, eps, tags=("family", "qelem", "npstr")):
+    return _add(
+        Request(
+            name,
+            "forms",
+            [
+                _mesh("triangle"),
+                "qpts = " + _CQ_PTS.format(eps=eps),
+                "qwts = np.array([1.0, 1.0, 1.0], dtype=np.float64) / 6.0",
+                'qe = basix.ufl.quadrature_element("triangle", points=qpts, weights=qwts)',
+                "Q = ufl.FunctionSpace(mesh, qe)",
+                'V = ufl.FunctionSpace(mesh, basix.ufl.element("Lagrange", "triangle", 1))',
+                "f = ufl.Coefficient(Q)",
+                "v = ufl.TestFunction(V)",
+                'L = f * v * ufl.dx(metadata={"quadrature_rule": "custom", '
+                '"quadrature_points": qpts, "quadrature_weights": qwts})',
+                "objs = [L]",
+            ],
+            tags=tags,
+        )
+    )
+
+
+_quad_element("qelem_base", "0.0", tags=("family", "qelem", "npstr", "kern"))
+_quad_element("qelem_eps10", "1e-10")
+# the same element points, but a rule in the measure that differs: only the element repr differs
+_add(
+    Request(
+        "qelem_only_eps10",
+        "forms",
+        [
+            _mesh("triangle"),
+            "qpts = " + _CQ_PTS.format(eps="1e-10"),
+            "qwts = np.array([1.0, 1.0, 1.0], dtype=np.float64) / 6.0",
+            'qe = basix.ufl.quadrature_element("triangle", points=qpts, weights=qwts)',
+            "Q = ufl.FunctionSpace(mesh, qe)",
+            'V = ufl.FunctionSpace(mesh, basix.ufl.element("Lagrange", "triangle", 1))',
+            "f = ufl.Coefficient(Q)",
+            "v = ufl.TestFunction(V)",
+            "rpts = " + _CQ_PTS.format(eps="0.0"),
+            'L = f * v * ufl.dx(metadata={"quadrature_rule": "custom", '
+            '"quadrature_points": rpts, "quadrature_weights": qwts})',
+            "objs = [L]",
+        ],
+        tags=("family", "qelem", "npstr"),
+    )
+)
